@@ -132,7 +132,8 @@ def check(run, fx, tier, floors=True):
     if floors or fx.const("tables::glyf::SimpleGlyphFlag::ON_CURVE_POINT") is not None:
         t16_flags(run, fx)
         t16_pred(run, fx)
-    if floors or any(b.root.endswith("::visit_composite_glyph_outline") for b in fx.bodies):
+    # the glyf outline visitor only exists with the `outline` feature: fail closed on the superset configuration, skip where it is compiled out
+    if (floors and run.config in (None, "prince", "default")) or any(b.root.endswith("::visit_composite_glyph_outline") for b in fx.bodies):
         t16_comp(run, fx)
     indexing.rule_index(run, fx, "C16-i", floors, select=lambda b: b.file in FILES, floor_n=10)
     overflow.rule_overflow(run, fx, "C16-o", floors, select=lambda b: b.file in FILES, floor_n=10)
